@@ -1074,20 +1074,24 @@ impl Bind {
         // Read basic data from the cursor
         let code = cursor.get_u8();
         let current_len = cursor.get_i32();
-        let portal = cursor.read_string()?;
-        let prepared_statement = cursor.read_string()?;
+        let portal_start = cursor.position() as usize;
+        cursor.read_string()?;
+        let name_start = cursor.position() as usize;
+        cursor.read_string()?;
 
-        // Calculate new length
-        let new_len = current_len + new_name.len() as i32 - prepared_statement.len() as i32;
+        // Calculate new length from the bytes of the old name: names need not be UTF-8,
+        // and the lossy string read_string() returns can be longer than they are.
+        let old_name_len = cursor.position() as usize - name_start - 1;
+        let new_len = current_len + new_name.len() as i32 - old_name_len as i32;
 
         // Begin building the response buffer
         let mut response_buf = BytesMut::with_capacity(new_len as usize + 1);
         response_buf.put_u8(code);
         response_buf.put_i32(new_len);
 
-        // Put the portal and new name into the buffer
+        // Put the portal, as the client spelled it, and new name into the buffer
         // Note: panic if the provided string contains null byte
-        response_buf.put_slice(CString::new(portal)?.as_bytes_with_nul());
+        response_buf.put_slice(&buf[portal_start..name_start]);
         response_buf.put_slice(CString::new(new_name)?.as_bytes_with_nul());
 
         // Add the remainder of the original buffer into the response
